@@ -37,7 +37,6 @@ func scenario08(v variant08) *netctl.Scenario {
 	return &netctl.Scenario{
 		Name:    v.name,
 		Faults:  nil,
-		Done:    func(x *netctl.Exec) bool { return x.Data.(*G).Done(x) },
 		Horizon: 5 * time.Minute,
 		Setup: func(x *netctl.Exec) {
 			g := New(x, v.proto, map[string]int32{"t": 3})
@@ -201,7 +200,7 @@ func CheckC08() *nrun.Check {
 			"synctests build of xsync",
 			"ticks are harmless: session, rebalance and request timeouts are 5 virtual minutes",
 			"the partitions start at offset 0 and the group has no prior commits (reset to earliest)",
-			"members heartbeat with distinct periods (1.0/1.13/1.27 s) and frames that reach the proxy between the same two decision points are ordered by connection name (tied timers and kfake's map-order JoinGroup/SyncGroup replies are not functions of the choice sequence)",
+			"members heartbeat with distinct periods (1.0/1.13/1.27 s) so that their timers do not tie for ever after a common rebalance",
 			"goroutine micro-interleavings inside one event are the Go runtime's",
 		},
 	}
